@@ -99,7 +99,8 @@ def compare_document(path: str, model, rng, label: str) -> tuple[list[dict], dic
         exp = D.value(pid, None, 0.0, initial=True)
         if name not in args0.index:
             viols.append(core.viol(f"parameter missing in the imported model [{label}]", None, parameter=pid, expected_name=name))
-        elif not core.close(args0[name], exp, 1e-9):
+        elif not (core.close(args0[name], exp, 1e-9) and abs(float(args0[name]) - exp) <= 1e-9 * abs(exp)):
+            # (relative to the value itself: a rate constant of 2.5e-17 is a value, not noise)
             viols.append(core.viol(f"parameter value differs from the document [{label}]", None, parameter=pid, got=float(args0[name]), expected=exp))
     if viols:
         return viols, counters
